@@ -29,6 +29,21 @@ def session():
     return _state['nb'], _state['neg']
 
 
+def session_nexthop():
+    """all families again, with the extended next-hop encoding (RFC 8950) negotiated for ipv4 unicast only: the
+    other families must decode exactly as they do without it"""
+    if 'neg_nh' not in _state:
+        nb = H.neighbor(families='all;', capability='operational enable; nexthop enable;', extra='nexthop { ipv4 unicast ipv6; }')
+        fams = sorted(nb.families())
+        caps = H.std_caps(65001, families=[(int(a), int(s)) for a, s in fams], nexthop=[(1, 1, 2)])
+        caps.append(H.cap(0xB9, b''))
+        neg, _, _ = H.negotiated(nb, H.peer_open_bytes(65001, 180, '9.9.9.9', caps))
+        if not neg.nexthop:
+            raise RuntimeError('harness: extended next-hop was not negotiated')
+        _state['nb_nh'], _state['neg_nh'] = nb, neg
+    return _state['nb_nh'], _state['neg_nh']
+
+
 def corpus():
     """(type, body, source) from the repository's QA files: every raw message they record"""
     if 'corpus' in _state:
